@@ -86,12 +86,13 @@ class Scenario:
     def obj(self, cls, idx=0):
         return self.U.classes[cls][idx]
 
-    def thread(self, name, source, args=None, dynamic=False, method=None):
-        self.comp.add_thread(name, source, args, dynamic, method)
+    def thread(self, name, source, args=None, dynamic=False, method=None, defer=False):
+        self.comp.add_thread(name, source, args, dynamic, method, defer)
         self.programs[name] = source
 
     def build(self, setup=None, prefix=None):
         """compile done; run the setup thread concretely and make its final state the initial state"""
+        self.comp.finish_deferred()
         self.protected = self.comp.apply_lock_protection()
         self.ts = bmc.TS(self.model, self.comp, prefix=prefix)
         ts = self.ts
@@ -1051,3 +1052,162 @@ class ChannelScenario(Scenario):
                 self._restore()
         ghost["seen"] = list(seen)
         return ghost, done, blocked, sched
+
+
+# ----------------------------------------------------------------------------- safe_terminate (C05, part a)
+
+class TerminateScenario(Scenario):
+    """The real multi.safe_terminate on top of the real WorkerPool/Reply; each member's (termfunc, killfunc) pair is a stub:
+    term behaviours: 'exits' (join_wait returns), 'hangs' (returns only once the process was killed), 'stuck' (never returns);
+    kill behaviours: 'kills' (takes effect), 'kill_hangs' (the kill call itself never returns - the #43/#221 case)."""
+
+    def __init__(self, pairs, timeout=1):
+        from execnet import multi
+
+        n = len(pairs)
+        self.pairs, self.timeout = pairs, timeout
+        self.model = py2ts.Model()
+        ns = dict(vars(gb))
+        ns.update({"safe_terminate": multi.safe_terminate, "WorkerPool": gb.WorkerPool})
+        classes = {"Reply": gb.Reply, "WorkerPool": gb.WorkerPool}
+        counts = {"Reply": 2 * n, "WorkerPool": 1, "Event": 2 * n + 2, "Lock": 1, "Set": 1, "List": 1, "ExecModel": 1}
+        sc = self
+
+        def s_call_value(comp, ctx, fval, node, cur):
+            # Reply.run: func(*args, **kwargs) - func is termkill (the nested function of safe_terminate) or a term/kill stub;
+            # termkill's own `killfunc()` lands here too
+            if node.args and isinstance(node.args[0], ast.Starred):
+                cur, tv = comp.ev(ctx, node.args[0].value, cur)
+                args = tv[1]
+            else:
+                args = []
+            join = comp.m.new_node()
+            other = cur
+            fdef, frame, line0, file = comp.closures["termkill"]
+            tok = comp.U.const(("localfunc", "termkill"))
+            here, nxt = comp.m.new_node(), comp.m.new_node()
+            comp.emit(ctx, other, here, guard=("eq", fval, C(tok)), visible=False)
+            comp.emit(ctx, other, nxt, guard=("ne", fval, C(tok)), visible=False)
+            if len(args) >= 2:
+                e, _ = comp.inline(ctx, fdef, None, [], [], here, node, "<termkill>", pre_evaluated=args[:2], closure=frame)
+                comp.emit(ctx, e, join, visible=False)
+            else:
+                comp.emit(ctx, here, join, updates=[(V(comp.m.errors_var), C(1))], visible=False)
+            other = nxt
+            for k, (term, kill) in enumerate(sc.pairs):
+                killed = comp.m.var(f"G.killed{k}", INT0)
+                for kind, name in (("term", f"TERM{k}"), ("kill", f"KILL{k}")):
+                    t = comp.U.const(("task", name))
+                    here, nxt = comp.m.new_node(), comp.m.new_node()
+                    comp.emit(ctx, other, here, guard=("eq", fval, C(t)), visible=False)
+                    comp.emit(ctx, other, nxt, guard=("ne", fval, C(t)), visible=False)
+                    other = nxt
+                    if kind == "term":
+                        n1 = comp.m.new_node()
+                        comp.emit(ctx, here, n1, updates=[(V(comp.m.var(f"G.term_called{k}", INT0)), C(pyint(1)))], visible=True, info=f"termfunc {k} (join + wait) starts", node=node, sync="task")
+                        n2 = comp.m.new_node()
+                        g = C(1) if term == "exits" else (("ne", V(killed), C(INT0)) if term == "hangs" else C(0))
+                        comp.emit(ctx, n1, n2, guard=g, updates=[(V(comp.m.var(f"G.term_done{k}", INT0)), C(pyint(1)))], visible=True, info=f"termfunc {k} returns ({term})", node=node, sync="await")
+                        comp.emit(ctx, n2, join, visible=False)
+                    else:
+                        n1 = comp.m.new_node()
+                        comp.emit(ctx, here, n1, updates=[(V(comp.m.var(f"G.kill_called{k}", INT0)), C(pyint(1)))], visible=True, info=f"killfunc {k} called", node=node, sync="task")
+                        n2 = comp.m.new_node()
+                        comp.emit(ctx, n1, n2, guard=C(1) if kill == "kills" else C(0), updates=[(V(killed), C(pyint(1)))], visible=True, info=f"killfunc {k} returns ({kill})", node=node, sync="await")
+                        comp.emit(ctx, n2, join, visible=False)
+            bad = comp.m.new_node()
+            comp.emit(ctx, other, bad, updates=[(V(comp.m.errors_var), C(1))], visible=False, info="call of unknown callable")
+            comp.emit(ctx, bad, join, visible=False)
+            return join, C(NONE)
+
+        self.comp = py2ts.Compiler(self.model, ns, classes, counts, task_specs={f"{p}{k}": "x" for k in range(n) for p in ("TERM", "KILL")},
+                                   extra_stubs={"call_value": s_call_value}, list_cap=3)
+        self.comp.closure_values = True
+        self.comp.allow_padded_tuples = True
+        self.comp.declare_tuple_field("task", ["S", ["S", "S"], "S"])
+        self.U = self.model.U
+        self.model.var("F.ExecModel.backend[0]", self.U.const("thread"))
+        self.em = self.U.classes["ExecModel"][0]
+        self.programs, self.static = {}, {}
+        self.bad, self.observed, self.good_flags = [], [], []
+        for k in range(2 * n):
+            self.thread(f"worker{k}", "def p(pool, reply):\n    pool._perform_spawn(reply)\n", dynamic=True, method="_perform_spawn", defer=True)
+        # safe_terminate is a module-level function: compiled via a harness wrapper that inlines its body
+        import inspect as _inspect
+        import textwrap as _tw
+
+        src = _tw.dedent(_inspect.getsource(multi.safe_terminate))
+        fn = ast.parse(src).body[0]
+        fn._owner_file = _inspect.getsourcefile(multi.safe_terminate)
+        fn._owner_line0 = _inspect.getsourcelines(multi.safe_terminate)[1]
+        self.comp.m.classes  # (no class: registered as a stub callable below)
+        self._st = fn
+
+        def s_safe_terminate(comp, ctx, node, cur):
+            return comp.inline(ctx, fn, None, node.args, node.keywords, cur, node, "multi")
+
+        self.comp.extra_stubs["safe_terminate"] = s_safe_terminate
+        pairs_src = ", ".join(f"(TERM{k}, KILL{k})" for k in range(n))
+        prog = f"def p(em):\n    safe_terminate(em, {timeout}, ({pairs_src},))\n    G.returned = 1\n"
+        self.thread("caller", prog, args={"em": self.em})
+        self.static["caller"] = (prog, {"em": self.em}, False)
+        self.build()
+
+    def witness(self, enc, K):
+        return [enc.at_end(K, "caller"), enc.var(K, "G.returned") == INT0 + 1]
+
+    def observe_model(self, st):
+        d = {g: st.get(f"G.{g}", INT0) - INT0 for g in self.observed}
+        d["finished"] = sorted(t for t in self.static if st[f"pc.{t}"] == self.ts.end[t])
+        return d
+
+    def observe_real(self, ghost, done, blocked):
+        d = {g: int(ghost.get(g, 0)) for g in self.observed}
+        d["finished"] = sorted(done)
+        return d
+
+    def replay(self, order, mode="sync"):
+        from execnet import multi
+
+        pairs, timeout = self.pairs, self.timeout
+        slots = {"_perform_spawn": [t for t in self.model.threads if t.startswith("worker")]}
+
+        def env(sched, G):
+            import threading as _th
+            import time as _t
+
+            em = _replay.ReplayExecModel(sched, "thread", slots)
+            d = {"EM": em, "safe_terminate": multi.safe_terminate}
+
+            def wait_for(pred):
+                t0 = _t.time()
+                while _t.time() - t0 < 20:
+                    if pred():
+                        return
+                    _t.sleep(0.005)
+                _th.Event().wait()      # never returns
+
+            for k, (term, kill) in enumerate(pairs):
+                def termf(k=k, term=term):
+                    sched.sync("task")
+                    setattr(G, f"term_called{k}", 1)
+                    if term == "hangs":
+                        wait_for(lambda: getattr(G, f"killed{k}"))
+                    elif term == "stuck":
+                        _th.Event().wait()
+                    sched.sync("await")
+                    setattr(G, f"term_done{k}", 1)
+
+                def killf(k=k, kill=kill):
+                    sched.sync("task")
+                    setattr(G, f"kill_called{k}", 1)
+                    if kill != "kills":
+                        _th.Event().wait()
+                    sched.sync("await")
+                    setattr(G, f"killed{k}", 1)
+
+                d[f"TERM{k}"], d[f"KILL{k}"] = termf, killf
+            return d
+
+        programs = {"caller": (self.static["caller"][0], {"em": "EM"}, False)}
+        return _replay.run_schedule(programs, order, env, mode=mode, gates=self.line_gates() if mode == "line" else None)
